@@ -124,3 +124,175 @@ func ruleI6(p *Prog, r *Report) {
 	}
 	r.Floor(R, "iterator constructors", 8, n)
 }
+
+// I7 the index is re-based at every level of a descent.
+//
+// (*ArrayMetaDataSlab).childSlabIndexInfo(i) answers, for an index relative to *this* slab, which child holds the
+// element and the index relative to *that child*. A routine that walks down must hand each level the index the level
+// above returned. Two obligations per call: (a) handed on - after the call, no call that involves another array slab
+// (as receiver or argument) is given the un-adjusted index; (b) loop form - when the call sits in a loop whose slab
+// changes from round to round, its index argument changes with the loop too (it is, or derives from, a loop phi). A
+// descent that keeps using the original index works for trees of one and two levels and reads the wrong slab (or
+// fails) from the third level on.
+func ruleI7(p *Prog, r *Report) {
+	const R = "I7"
+	n := 0
+	isArraySlabT := func(t types.Type) bool {
+		switch typeName(t) {
+		case "ArraySlab", "ArrayDataSlab", "ArrayMetaDataSlab":
+			return true
+		}
+		return false
+	}
+	for _, top := range p.TopFuncs() {
+		if p.IsTestFile(top.Pos()) {
+			continue
+		}
+		eachInstrDeep(top, func(fn *ssa.Function, in ssa.Instruction) {
+			c, ok := in.(*ssa.Call)
+			if !ok || c.Call.StaticCallee() == nil || c.Call.StaticCallee().Name() != "childSlabIndexInfo" || len(c.Call.Args) < 2 {
+				return
+			}
+			n++
+			recv, idx := c.Call.Args[0], c.Call.Args[1]
+			cons := "index-rebased-on-descent:" + p.Name(fn)
+			// (b) loop form
+			if h := loopHeadOf(c.Block()); h != nil {
+				blocks := loopBlocks(h)
+				varies := func(v ssa.Value) bool {
+					return sliceContains(v, func(x ssa.Value) bool {
+						ph, ok := x.(*ssa.Phi)
+						return ok && blocks[ph.Block()]
+					}, 0, map[ssa.Value]bool{})
+				}
+				if varies(recv) && !varies(idx) {
+					r.Bad(R, cons, p.InstrPos(in), "the descent loop moves to another slab every round but asks each level with the same index: from the second index level on the index is no longer relative to the slab that is asked, so the wrong child is chosen (or an in-range index is refused)")
+					return
+				}
+			}
+			// (a) handed on
+			var bad ssa.Instruction
+			reachFrom(fn, in, nil, func(z ssa.Instruction) bool {
+				if bad != nil {
+					return true
+				}
+				y, ok := z.(ssa.CallInstruction)
+				if !ok || z == in {
+					return false
+				}
+				if g := y.Common().StaticCallee(); g != nil && isErrorCtorFunc(g) {
+					return false
+				}
+				vals := append([]ssa.Value{}, y.Common().Args...)
+				if y.Common().IsInvoke() {
+					vals = append(vals, y.Common().Value)
+				}
+				other := false
+				for _, a := range vals {
+					if isArraySlabT(a.Type()) && !sameValue(a, recv) {
+						other = true
+					}
+				}
+				if !other {
+					return false
+				}
+				for _, a := range y.Common().Args {
+					if bt, ok := a.Type().Underlying().(*types.Basic); ok && bt.Kind() == types.Uint64 && (a == idx || sameValue(canonConv(a), canonConv(idx))) {
+						bad = z
+						return true
+					}
+				}
+				return false
+			})
+			r.Decide(bad == nil, R, cons, p.InstrPos(in), "the level below is handed the adjusted index", "the index that was relative to this slab is handed on to a child slab"+func() string {
+				if bad != nil {
+					return " at " + p.InstrPos(bad)
+				}
+				return ""
+			}()+" instead of the adjusted index childSlabIndexInfo returned: the child looks at the wrong position")
+		})
+	}
+	r.Floor(R, "child-by-index lookups", 4, n)
+}
+
+// I8 one cursor per level: cursors made while iterating are pushed on a stack.
+//
+// The loaded-value iterators walk a slab tree of any depth without recursion. When the walk finds an index slab it
+// makes a cursor over that slab's children (a *...LoadedSlabIterator literal created inside a method of the
+// iterator); the cursors of the levels above must stay alive until the new one is exhausted. Obligation per such
+// literal: it is appended to a slice field of the iterator (the stack), and it is not stored into a scalar field of
+// the iterator - a fixed number of cursor fields works for trees of that many levels and silently drops the rest of
+// a level beyond it.
+func ruleI8(p *Prog, r *Report) {
+	const R = "I8"
+	n := 0
+	for _, top := range p.TopFuncs() {
+		if p.IsTestFile(top.Pos()) || !strings.Contains(recvName(top), "LoadedValueIterator") || len(top.Params) == 0 {
+			continue
+		}
+		recv := top.Params[0]
+		eachInstr(top, func(in ssa.Instruction) {
+			al, ok := in.(*ssa.Alloc)
+			if !ok || !al.Heap {
+				return
+			}
+			nt := rootNamed(al.Type())
+			if nt == nil || !strings.Contains(nt.Obj().Name(), "LoadedSlabIterator") {
+				return
+			}
+			n++
+			cons := "level-cursor-pushed:" + p.Name(top)
+			var scalar ssa.Instruction
+			pushed := false
+			for _, u := range *al.Referrers() {
+				st, ok := u.(*ssa.Store)
+				if !ok || st.Val != ssa.Value(al) {
+					continue
+				}
+				if fr, ok := asFieldAddr(st.Addr); ok && sameValue(fr.Base, recv) {
+					scalar = st
+					continue
+				}
+				// element of the variadic array of an append whose result goes to a slice field of the iterator
+				ia, ok := st.Addr.(*ssa.IndexAddr)
+				if !ok {
+					continue
+				}
+				arr := ia.X
+				eachInstr(top, func(y ssa.Instruction) {
+					c, ok := y.(*ssa.Call)
+					if !ok {
+						return
+					}
+					if bi, ok := c.Call.Value.(*ssa.Builtin); !ok || bi.Name() != "append" || len(c.Call.Args) != 2 {
+						return
+					}
+					sl, ok := c.Call.Args[1].(*ssa.Slice)
+					if !ok || sl.X != arr {
+						return
+					}
+					src, ok := asLoadedField(c.Call.Args[0])
+					if !ok || !sameValue(src.Base, recv) {
+						return
+					}
+					for _, u2 := range *c.Referrers() {
+						if st2, ok := u2.(*ssa.Store); ok && st2.Val == ssa.Value(c) {
+							if fr, ok := asFieldAddr(st2.Addr); ok && sameValue(fr.Base, recv) && fr.Field == src.Field {
+								pushed = true
+							}
+						}
+					}
+				})
+			}
+			switch {
+			case scalar != nil:
+				r.Bad(R, cons, p.InstrPos(scalar), "the cursor over the children of an index slab found during the walk is stored in a single field of the iterator: the cursor of the level above that the field held is lost, so in a tree with more index levels than the iterator has fields the rest of that level is never visited")
+			case !pushed:
+				r.Bad(R, cons, p.InstrPos(in), "the cursor over the children of an index slab found during the walk is not pushed on the iterator's stack of parents")
+			default:
+				r.Ok(R, cons, p.InstrPos(in), "the new level's cursor is appended to the iterator's stack of parents")
+			}
+		})
+	}
+	r.Floor(R, "level cursors made during a walk", 2, n)
+}
